@@ -20,7 +20,9 @@ RULE = ('breadth-first search over operation histories (build from an expression
         'of OBDDs over n variables; states are deduplicated by (slot truth tables, multiset of '
         '(variable, truth table) of all live non-terminal nodes); every transition is executed on '
         'the real library by replaying the history from an empty store; non-trivial state = some '
-        'live node is not referenced by any slot root path or two slots hold equal functions')
+        'live node is not referenced by any slot root path or two slots hold equal functions; plus the '
+        'crowd family: every population size N up to a bound x member shape x drop pattern x re-creation '
+        'route, each one deterministic history on the real store')
 ASSUMPTIONS = ['CPython reference counting frees dropped diagrams immediately (gc disabled during '
                'the search, gc.collect is an explicit operation; a free-running pass repeats the '
                'search with the generational collector at threshold 1)',
